@@ -113,6 +113,8 @@ def main(what="sensitivity", tier="quick", only=None):
         print(f"[benign] {len(res)} check runs, alarms: {loud}")
         return 2 if loud else 0
     items = mutants()
+    if only is None and os.environ.get("SENS_ONLY"):
+        only = [x for x in os.environ["SENS_ONLY"].split(",") if x]
     if only:
         items = [i for i in items if any(o in i["id"] for o in only)]
     res = []
